@@ -21,7 +21,7 @@ PROPS_MODULES = ["TraitsVerif.Props.C12"]
 TRANSLATORS = ["propstate"]
 RULE = ("seeded random histories of 1-15 steps over a pool of 3-6 HasTraits objects (value/aux Int, inst Instance, "
         "kids List(Instance), byname Dict(Str, Instance), tags Set(Int)); a class per shape: Property(observe=E) or "
-        "legacy depends_on, cached or not, 17 expressions (scalar, inst.value, kids.items.value, byname.items, "
+        "legacy depends_on, cached or not, 20 expressions (scalar, inst.value, kids.items.value, byname.items, "
         "inst.kids.items.value, tags.items, two-link paths, lists of paths), full-view or lossy-sum getter, getter "
         "returning Undefined, getter raising on its k-th call, class-level _p_changed listener, static readers on "
         "aux / value, dynamically attached on_trait_change + observe listeners and a late reader; steps: scalar set, "
@@ -51,7 +51,9 @@ EXHAUSTIVE = {"quick": False, "thorough": False}
 DISTINCT_BY_OUTPUT = False
 
 EXPRS = ["v", "i.v", "k.v", "B", "i.k.v", "T", "b.v", "K", "I", "i.i.v", "k.k.v", "k.i.v", "i.b.v",
-         "v+i.v", "k.v+B", "i.v+i.k.v", "T+k.v+I"]
+         "v+i.v", "k.v+B", "i.v+i.k.v", "T+k.v+I", "i.i.i.v", "b.b.v", "i.k.i.v"]
+# expressions in which a link can be reachable through itself (the F10 input class)
+SELF_EXPRS = ["i.i.v", "k.k.v", "i.i.i.v", "b.b.v", "i.k.i.v", "i.i.v", "k.k.v"]
 LINK_SLOT = {"i": "i", "k": "k", "b": "b"}
 LEAF_SLOT = {"v": "v", "a": "a", "I": "i", "K": "k", "B": "b", "T": "t"}
 OBS_LINK = {"i": "inst", "k": "kids.items", "b": "byname.items"}
@@ -609,6 +611,13 @@ def root_class(shape):
     fail_k = shape.fail_k
     fail_exc = shape.fail_exc
 
+    def plain(self):
+        """the getter's function of the object's current state (no counter, no cache)"""
+        if view:
+            return "&".join(r_view(self, ls, lf) for ls, lf in paths)
+        t = sum(r_sum(self, ls, lf) for ls, lf in paths)
+        return Undefined if (undef and t % 5 == 3) else str(t)
+
     def getter(self):
         lg = _log(self)
         n = lg["calls"]
@@ -616,18 +625,16 @@ def root_class(shape):
         if fail_k is not None and n == fail_k:
             lg["raised"] += 1
             raise S.exc_class(fail_exc)("getter fails on call %d" % n)
-        if view:
-            return "&".join(r_view(self, ls, lf) for ls, lf in paths)
-        t = sum(r_sum(self, ls, lf) for ls, lf in paths)
-        return Undefined if (undef and t % 5 == 3) else str(t)
+        return plain(self)
     getter.__name__ = "_get_p"
 
     def nested_read(self, who):
         lg = _log(self)
+        now = plain(self)       # recomputation at the moment of the read (the state may be mid-restore)
         try:
-            lg["nested"].append(("ok", self.p, who))
+            lg["nested"].append(("ok", self.p, who, now))
         except Exception as e:
-            lg["nested"].append(("err", S.exc_name(e), who))
+            lg["nested"].append(("err", S.exc_name(e), who, now))
             raise
 
     body = {"p": prop, "_get_p": cached_property(getter) if shape.cached else getter}
@@ -654,7 +661,7 @@ def setup():
     from traits.api import push_exception_handler
     from traits.observation.api import push_exception_handler as obs_push
     push_exception_handler(handler=lambda *a: None, reraise_exceptions=False, main=True)
-    obs_push(handler=lambda event: None, reraise_exceptions=False, main=True)
+    obs_push(handler=lambda event: None, reraise_exceptions=False)
     Node = node_class()
     n = Node()
     order = [x for x in n.copyable_trait_names() if x in NODE_FIELDS]
@@ -790,9 +797,14 @@ def run_impl(case):
     def klass():
         if self_reach_seen:
             return "mutated-link-reachable-through-itself"
+        return ("legacy:" if shape.legacy else "") + shape.expr
+
+    def sig(symptom):
+        # legacy listeners skip an object that is already listened to and drop it on the first removal (C16):
+        # every symptom on a shared / repeated item is that one defect
         if shape.legacy and nontree_seen:
             return "legacy-depends_on:shared-or-repeated-item"
-        return ("legacy:" if shape.legacy else "") + shape.expr
+        return symptom + ":" + klass()
 
     for stext in steps:
         st = parse_step(stext)
@@ -871,7 +883,7 @@ def run_impl(case):
         otc, obs = list(R.otc), list(R.obs)
         outs.append("%s c%d x[%s] s[%s] t[%s] o[%s]" % (
             read, calls,
-            "^".join(show_val(v) if t == "ok" else "!" + v for t, v, _ in nested),
+            "^".join(show_val(v) if t == "ok" else "!" + v for t, v, _, _ in nested),
             "^".join("%s>%s" % (show_val(a), show_val(b)) for a, b in static),
             "^".join("%s>%s" % (show_val(a), show_val(b)) for a, b in otc),
             "^".join("%s>%s" % (show_val(a), show_val(b)) for a, b in obs)))
@@ -887,21 +899,21 @@ def run_impl(case):
         # (a) never stale: the cache entry, and every value read, is the getter's function of the current state
         entry = root.__dict__.get(CACHE, None)
         if CACHE in root.__dict__ and show_val(entry) != ref:
-            hits.append(_hit("stale-cache:" + klass(), "cache entry differs from recomputation after `%s`" % stext,
+            hits.append(_hit(sig("stale-cache"), "cache entry differs from recomputation after `%s`" % stext,
                              cached_value=show_val(entry), recomputed=ref, step=stext))
         if k == "rd" and not read.startswith("!") and read != ref:
-            hits.append(_hit("stale-read:" + klass(), "read differs from recomputation",
+            hits.append(_hit(sig("stale-read"), "read differs from recomputation",
                              read=read, recomputed=ref, step=stext))
         # (b) values seen by sibling handlers during the dispatch
-        for t, v, who in nested:
-            if t == "ok" and show_val(v) != ref:
+        for t, v, who, now in nested:
+            if t == "ok" and show_val(v) != show_val(now):
                 pre_sibling = (not shape.legacy) and who == "rv"
                 hits.append(_hit("ordering:sibling-handler-reads-before-invalidation" if pre_sibling
-                                 else "stale-nested-read:" + klass(),
+                                 else sig("stale-nested-read"),
                                  "a handler on the changed trait read the property during the dispatch and got a "
-                                 "value computed before the change", seen=show_val(v), recomputed=ref, step=stext))
+                                 "value computed before the change", seen=show_val(v), recomputed=show_val(now), step=stext))
         if otc != obs:
-            hits.append(_hit("handlers-disagree:" + klass(), "on_trait_change and observe handlers on the property "
+            hits.append(_hit(sig("handlers-disagree"), "on_trait_change and observe handlers on the property "
                              "received different notifications", otc=str(otc), obs=str(obs), step=stext))
         if fresh:
             interval_runs, interval_exempt = 0, False
@@ -927,28 +939,31 @@ def run_impl(case):
                     return "harness-exception getter not DependsOnly %s" % stext, [], ["harness-exception"]
                 # ... and must not invalidate or notify
                 if (pre_has_cache and CACHE not in root.__dict__) or static or otc or obs:
-                    hits.append(_hit("spurious-recompute:" + klass(),
+                    hits.append(_hit(sig("spurious-recompute"),
                                      "a change of an observable the expression does not select dropped the cache "
                                      "entry / notified", step=stext, static=str(static), otc=str(otc)))
             # (d) announces
-            if h_getter(pre, shape) != ref and listeners and not raised_now:
+            # (a getter returning the Undefined sentinel is outside the contract: legacy `notify` does not announce
+            #  when the dropped entry held Undefined)
+            undef_entry = pre_has_cache and show_val(pre_cache) == "U"
+            if h_getter(pre, shape) != ref and listeners and not raised_now and not (shape.legacy and undef_entry):
                 for name, got, present in (("static", static, shape.static), ("on_trait_change", otc, R.attached),
                                            ("observe", obs, R.attached)):
                     if not present:
                         continue
                     if len(got) != 1:
-                        hits.append(_hit("not-announced:" + klass() if not got else "announced-twice:" + klass(),
+                        hits.append(_hit(sig("not-announced") if not got else sig("announced-twice"),
                                          "%d notifications to the %s listener for a change that alters the value"
                                          % (len(got), name), step=stext, recomputed=ref))
                         continue
                     old, new = got[0]
                     if show_val(new) != ref:
-                        hits.append(_hit("announced-wrong-new:" + klass(), "notification carries new=%s, recomputed %s"
+                        hits.append(_hit(sig("announced-wrong-new"), "notification carries new=%s, recomputed %s"
                                          % (show_val(new), ref), step=stext, listener=name))
                     if cached and not pre_reader:
                         want = show_val(pre_cache) if pre_has_cache else ("N" if shape.legacy else "U")
                         if show_val(old) != want:
-                            hits.append(_hit("announced-wrong-old:" + klass(), "notification carries old=%s, the "
+                            hits.append(_hit(sig("announced-wrong-old"), "notification carries old=%s, the "
                                              "dropped cache entry was %s" % (show_val(old), want), step=stext,
                                              listener=name))
         # (c) at most one getter run between two relevant changes (cached, total, non-Undefined getters)
@@ -956,7 +971,7 @@ def run_impl(case):
             interval_exempt = True
         interval_runs += ran
         if cached and not interval_exempt and interval_runs > 1:
-            hits.append(_hit("spurious-recompute:" + klass(), "the getter ran %d times since the last relevant change"
+            hits.append(_hit(sig("spurious-recompute"), "the getter ran %d times since the last relevant change"
                              % interval_runs, step=stext))
             interval_exempt = True
     return " ; ".join(outs), hits, tags
@@ -970,8 +985,8 @@ def nontrivial(case, out):
 # generator
 # ---------------------------------------------------------------------------
 
-def random_shape(rng, legacy=None):
-    expr = rng.choice(EXPRS)
+def random_shape(rng, legacy=None, exprs=None):
+    expr = rng.choice(exprs or EXPRS)
     if legacy is None:
         legacy = rng.random() < 0.12
     cached = rng.random() < 0.82
@@ -1003,15 +1018,15 @@ def reachable(h, paths):
     return sorted(set(out))
 
 
-def random_history(rng, legacy=None, maxsteps=15, allow_self=0.06):
-    shape_text = random_shape(rng, legacy)
+def random_history(rng, legacy=None, maxsteps=15, allow_self=0.06, tree=None, exprs=None):
+    shape_text = random_shape(rng, legacy, exprs)
     shape = Shape(shape_text)
     n = rng.randint(3, 5) if not shape.legacy else rng.randint(4, 6)
     h = {o: blank_obj() for o in range(n)}
     rel_slots = slots_of(shape.paths)
     steps = []
     copies = 0
-    tree_mode = shape.legacy and rng.random() < 0.7
+    tree_mode = (shape.legacy and rng.random() < 0.7) if tree is None else tree
 
     def referenced():
         r = set()
@@ -1198,3 +1213,10 @@ def generate(rng, tier):
     # legacy shape on tree-shaped graphs gets its own stream (separate class shape)
     for i in range(n // 8):
         yield random_history(rng, legacy=True, allow_self=0.0)
+    # self links are frequent here: mostly impl + oracle only ('#') - searches for a *stale* cache where the real
+    # machinery leaves its specification (F10), and for anything else the oracle can see
+    for i in range(n // 8):
+        yield random_history(rng, legacy=False, allow_self=0.5, exprs=SELF_EXPRS)
+    # legacy on arbitrary (shared) graphs: impl + oracle only
+    for i in range(n // 16):
+        yield random_history(rng, legacy=True, allow_self=0.1, tree=False)
